@@ -1,7 +1,8 @@
 (** Dispatcher for the system-level correspondences (C10, C14): a case is tagged
       0 : a step-indexed scenario for the executable Sim instance (Corr/SimInst.v)
       1 : a whole set-up described by times, files and tables (Corr/SetupRun.v, Model/Setup.v)
-      2 : the mirror image / shifted image of a described set-up against the run of the transformed files *)
+      2 : the mirror image / shifted image of a described set-up against the run of the transformed files
+      3 : the restarted simulation of a described set-up (restart after step r) *)
 From Coq Require Import ZArith List Bool.
 From Ladim Require Import Corr.SimInst Corr.SetupRun.
 Import ListNotations.
@@ -12,5 +13,6 @@ Definition check_case (c : list Z) : bool :=
   | 0 :: r => SimInst.check_case r
   | 1 :: r => SetupRun.check_case r
   | 2 :: r => SetupRun.check_case_tr r
+  | 3 :: r => SetupRun.check_case_warm r
   | _ => false
   end.
